@@ -90,6 +90,9 @@ impl<T> Iterator for GenIter<T> {
         match self.hint_mode {
             0 => (n, Some(n)),
             1 => (n / 2, Some(n + 3)),
+            // honest but loose upper bounds (filter / take_while over a huge range report such hints)
+            3 => (n / 2, Some(usize::MAX)),
+            4 => (0, Some(n * 64 + 1000)),
             _ => (0, None),
         }
     }
@@ -234,8 +237,16 @@ impl<Hd: TokP, El: TokP> Engine for CtorEngine<Hd, El> {
         };
         let mk = |items: Vec<El>, second: Vec<El>, mode: u8| if nonfused { GenIter::honest_nonfused(items, second, mode) } else { GenIter::honest(items, mode) };
         let z_before = El::live_now();
+        // one case in four (never when a refusal panic is legitimate): the constructor is called from a destructor
+        // that runs while the thread is ALREADY unwinding from an unrelated panic (std::thread::panicking() is true
+        // inside): the handle it returns must be as good as any other
+        let in_unwind = c.p(6) & 6 == 6 && !El::ZST && !nonfused;
+        let what = if in_unwind { format!("{} [called from a destructor during an unrelated unwind]", what) } else { what };
+        if in_unwind {
+            rt::run::trace_stream(&what);
+        }
         let r = catch_unwind(AssertUnwindSafe(|| {
-            track(|| -> Built<Hd, El> {
+            let build = || track(|| -> Built<Hd, El> {
                 match ctor {
                     0 => {
                         let mut v = items;
@@ -243,9 +254,9 @@ impl<Hd: TokP, El: TokP> Engine for CtorEngine<Hd, El> {
                         Built::Slice(Arc::from(v))
                     }
                     1 => Built::Slice(items.into_iter().collect()),
-                    2 => Built::Slice(mk(items, second, 1).collect()),
+                    2 => Built::Slice(mk(items, second, if c.p(6) & 1 == 0 { 1 } else { 3 }).collect()),
                     3 => Built::Slice(mk(items, second, 2).collect()),
-                    4 => Built::USlice(mk(items, second, c.p(3) % 3).collect()),
+                    4 => Built::USlice(mk(items, second, c.p(3) % 5).collect()),
                     5 => {
                         uses_header = true;
                         Built::Hs(Arc::from_header_and_iter(hdr, mk(items, second, 0)))
@@ -284,7 +295,25 @@ impl<Hd: TokP, El: TokP> Engine for CtorEngine<Hd, El> {
                         Built::Thin(Arc::into_thin(fat))
                     }
                 }
-            })
+            });
+            if !in_unwind {
+                return build();
+            }
+            struct OnDrop<F: FnOnce()>(Option<F>);
+            impl<F: FnOnce()> Drop for OnDrop<F> {
+                fn drop(&mut self) {
+                    if let Some(f) = self.0.take() {
+                        f()
+                    }
+                }
+            }
+            let mut out = None;
+            let outer = catch_unwind(AssertUnwindSafe(|| {
+                let _g = OnDrop(Some(|| out = Some(build())));
+                std::panic::panic_any(tok::Injected);
+            }));
+            drop(outer);
+            out.expect("the destructor ran")
         }));
         let mut nontrivial = (len >= 2 && !El::ZST) || (spare > 0 && (ctor == 0 || ctor == 6)) || matches!(ctor, 2 | 3);
         match r {
@@ -432,6 +461,69 @@ fn bits_eq<T: Copy>(a: &T, b: &T) -> bool {
     unsafe { std::slice::from_raw_parts(a as *const T as *const u8, n) == std::slice::from_raw_parts(b as *const T as *const u8, n) }
 }
 
+/// Default is a constructor too: wherever a handle type implements it (today: Arc<T: Default> only), the
+/// result must be a FRESH SOLE OWNER of the payload's default value — autoref probes, so that an impl that
+/// appears later (Arc<str>, Arc<[T]>, ThinArc, ...) is checked without the harness depending on it.
+pub struct OptD<T>(pub std::marker::PhantomData<T>);
+pub trait NoDefaultImpl<T> {
+    fn opt_default(&self) -> Option<T> {
+        None
+    }
+}
+impl<T> NoDefaultImpl<T> for &OptD<T> {}
+impl<T: Default> OptD<T> {
+    pub fn opt_default(&self) -> Option<T> {
+        Some(T::default())
+    }
+}
+
+fn default_probes() {
+    use std::marker::PhantomData as PD;
+    const PD6: &[&str] = &["C06", "C04", "C09"];
+    macro_rules! arc_like {
+        ($t:ty, $name:expr, $is_default:expr) => {{
+            let (a, b): (Option<$t>, Option<$t>) = ((&OptD::<$t>(PD)).opt_default(), (&OptD::<$t>(PD)).opt_default());
+            if let (Some(mut a), Some(b)) = (a, b) {
+                let ok_val = $is_default(&a) && $is_default(&b);
+                let (ca, cb) = (Arc::count(&a), Arc::count(&b));
+                if !ok_val || ca != 1 || cb != 1 || !a.is_unique() || Arc::get_mut(&mut a).is_none() || Arc::ptr_eq(&a, &b) && std::mem::size_of_val(&*a) != 0 {
+                    viol::report(PD6, "K.default", format!("{}::default(): value ok {}, counts {} / {} (a fresh sole owner must report 1), is_unique {}, two defaults share an allocation: {}", $name, ok_val, ca, cb, a.is_unique(), Arc::ptr_eq(&a, &b)));
+                }
+                let u = Arc::try_unique(a);
+                if u.is_err() {
+                    viol::report(PD6, "K.default", format!("{}::default(): try_unique refuses the only owner", $name));
+                }
+                drop(u);
+                drop(b);
+            }
+        }};
+    }
+    arc_like!(Arc<u64>, "Arc<u64>", |a: &Arc<u64>| **a == 0);
+    arc_like!(Arc<String>, "Arc<String>", |a: &Arc<String>| a.is_empty());
+    arc_like!(Arc<str>, "Arc<str>", |a: &Arc<str>| a.is_empty());
+    arc_like!(Arc<[u32]>, "Arc<[u32]>", |a: &Arc<[u32]>| a.is_empty());
+    arc_like!(Arc<HeaderSlice<u8, [u16]>>, "Arc<HeaderSlice<u8,[u16]>>", |a: &Arc<HeaderSlice<u8, [u16]>>| a.header == 0 && a.slice.is_empty());
+    if let Some(t) = (&OptD::<ThinArc<u8, u16>>(PD)).opt_default() {
+        let n = ThinArc::strong_count(&t);
+        if n != 1 || t.header.header != 0 || !t.slice.is_empty() {
+            viol::report(PD6, "K.default", format!("ThinArc::default(): count {} header {} len {}", n, t.header.header, t.slice.len()));
+        }
+    }
+    if let Some(o) = (&OptD::<triomphe::OffsetArc<u64>>(PD)).opt_default() {
+        if triomphe::OffsetArc::strong_count(&o) != 1 || *o != 0 {
+            viol::report(PD6, "K.default", format!("OffsetArc::default(): count {} value {}", triomphe::OffsetArc::strong_count(&o), *o));
+        }
+    }
+    if let Some(u) = (&OptD::<UniqueArc<u64>>(PD)).opt_default() {
+        if *u != 0 {
+            viol::report(PD6, "K.default", format!("UniqueArc::default(): value {}", *u));
+        }
+    }
+    if !alloc::live_blocks().is_empty() {
+        viol::report(PD6, "K.default", "blocks left allocated after dropping every Default-constructed handle".to_string());
+    }
+}
+
 impl Engine for CopyCtorEngine {
     fn name(&self) -> String {
         "ctor-copy".into()
@@ -447,6 +539,13 @@ impl Engine for CopyCtorEngine {
         let _ = viol::take();
         let mut what = String::new();
         let mut labels = vec![];
+        if c.p(7) & 7 == 0 {
+            let r0 = catch_unwind(AssertUnwindSafe(default_probes));
+            if r0.is_err() {
+                viol::report(&["C06", "C04", "C09"], "K.default", "a Default impl of a handle type panicked".to_string());
+            }
+            labels.push("default-probes");
+        }
         let r = catch_unwind(AssertUnwindSafe(|| match pick(c.p(0), 7) {
             0 => copy_case::<u8>(&mut what, c, |x| x as u8, "u8"),
             1 => copy_case::<u16>(&mut what, c, |x| x as u16, "u16"),
